@@ -430,14 +430,29 @@ fn exec_limit(t: &mut Tape, st: &mut Stats) -> Result<(), String> {
 /// Random beyond the small scope.
 fn exec_random(t: &mut Tape, st: &mut Stats) -> Result<(), String> {
     let api = if t.bool() { Api::Call } else { Api::Flow };
-    let nchunks = match t.weighted(&[3, 2, 1]) {
-        0 => t.range(0, 4),
-        1 => t.range(5, 12),
-        _ => t.range(13, 30),
+    let many_tiny = t.chance(1);
+    let nchunks = if many_tiny {
+        // a long run of minimal chunks (any cumulative accounting of framing bytes shows here)
+        t.range(2_000, 20_000)
+    } else {
+        match t.weighted(&[3, 2, 1]) {
+            0 => t.range(0, 4),
+            1 => t.range(5, 12),
+            _ => t.range(13, 30),
+        }
     };
     let mut chunks = vec![];
     let mut total = 0usize;
-    for _ in 0..nchunks {
+    if many_tiny {
+        st.class("thousands_of_tiny_chunks");
+        let sz = t.range(1, 2);
+        let ext: Vec<u8> = if t.chance(30) { b";x=y".to_vec() } else { vec![] };
+        for _ in 0..nchunks {
+            total += sz;
+            chunks.push(ChunkSpec { len: sz, upper: false, lead_zeros: 0, ext: ext.clone() });
+        }
+    }
+    for _ in 0..(if many_tiny { 0 } else { nchunks }) {
         let len = match t.weighted(&[5, 3, 2, 1]) {
             0 => t.range(1, 20),
             1 => *t.pick(&SIZES) + t.below(3),
@@ -565,7 +580,7 @@ modes, API alternating. enumeration 'pairs': every coding of the full small-scop
 {1,2,3,15,16,255,256,4095,4096}; quick: <= 1 chunk of those sizes plus 2 chunks of sizes up to 256) x all single cuts at the \
 structural positions (around every CR, LF, ';', chunk boundary, end, into the next message) x all 27 modes, and all double cuts \
 x 3 of the 27 modes rotating with the pair index. enumeration 'limit': size lines of 17..20 bytes (the decoder's limit is 20) made of zero padding or long extensions, 1..2 chunks, \
-every single cut in and around the size lines x all modes. random: 0..30 chunks up to 70000 bytes, extensions with spaces, \
+every single cut in and around the size lines x all modes. random: 0..30 chunks up to 70000 bytes (1 %: 2000..20000 chunks of 1..2 bytes), extensions with spaces, \
 quotes and obs-text, leading zeros, trailers, random cut sets incl. byte-by-byte stretches, random output cycles. Every run is followed by further bytes \
 (a next response, a stray CRLF and a response, chunk-looking bytes, bare CRLFs - rotating) that must stay untouched. Oracle per read: counts in range, output == next payload bytes, no read across two chunks while stop is \
 on, consumed never beyond the coding, is_on_chunk_boundary() <=> offset is a chunk boundary, ended <=> final CRLF consumed, \
